@@ -469,6 +469,11 @@ impl Memfs {
                         )?;
                     }
 
+                    // Copying a file onto itself changes nothing
+                    if dst_path == src.path() {
+                        continue;
+                    }
+
                     // Clone the src entry and override its paths
                     let mut dst = src.clone();
                     dst.path.clone_from(&dst_path);
